@@ -149,7 +149,7 @@ CLAIMED = {
          "`unreachable!`s in the accessors are discharged from the handle invariant); that nesting stores the child whole with exactly "
          "the last prefix/domain; that conversions are name-preserving. #[track_caller] on every method of the location chain is a "
          "syntactic obligation. persist/load serialise exactly self.schema / wrap exactly what was parsed. Native tests build, persist, "
-         "read back (the way the compiler does) and compare."),
+         "read back (the way the compiler does) and compare. The COMPILER side of the same sentence for blueprint registrations (obligations tagged @C19 in the C05 unit): on the real text of pavexc's process_route / process_fallback / process_middleware / process_pre/post_processing_middleware / process_error_observer / process_constructor, every registered component is interned as a component of the kind it was registered as, with exactly the annotation coordinates (id, created_at) and the registration location of the schema entry (and, for constructors, the scope of its blueprint and the cloning policy that was given)."),
    note=("NOT decided: the attribute channel (proc-macro -> rustdoc JSON -> darling) — second sentence of C19; serde/RON round trip of "
          "the schema types is an assumed axiom (exercised natively); reflection::Sources conversion (sources2sources: into_iter().map().collect()) is extracted and proved.."),
    design="§3/C19"),
